@@ -2,10 +2,11 @@
 """seed_recheck.py <id>… : for each stored seeded change (seeded/<id>/patch.diff) run every registered quick check against
 it (mutest.sh, scratch worktree, slot $MUT_SLOT) and record the verdicts in seeded/<id>/meta.json."""
 import json, os, re, subprocess, sys
+V = os.path.dirname(os.path.abspath(__file__))
 for sid in sys.argv[1:]:
-    d = f"/verif/seeded/{sid}"
+    d = f"{V}/seeded/{sid}"
     meta = json.load(open(f"{d}/meta.json"))
-    m = subprocess.run(["/verif/mutest.sh", f"{d}/patch.diff"], stdout=subprocess.PIPE, stderr=subprocess.STDOUT, text=True).stdout
+    m = subprocess.run([f"{V}/mutest.sh", f"{d}/patch.diff"], stdout=subprocess.PIPE, stderr=subprocess.STDOUT, text=True).stdout
     caught = re.search(r"CAUGHT-BY:(.*)", m).group(1).split() if "CAUGHT-BY:" in m else []
     silent = re.search(r"SILENT:(.*)", m).group(1).split() if "SILENT:" in m else []
     verdicts = {l.split(":")[0].replace("== ", ""): ("no-failing-input-found" if "no-failing-input-found" in l else "concrete") for l in m.splitlines() if l.startswith("== ")}
